@@ -8,7 +8,7 @@ from harness.props import c03 as c03mod
 from harness.symterm import cterm, name_id
 
 
-def py_lifecycle(expr, history, shifts=None):
+def py_lifecycle(expr, history, shifts=None, sink=False):
     """Oracle from the property text: every stateful actor receives exactly the state its own counterpart produced in
     the training run that committed the loaded generation, combined with the hyper-parameters of the current code
     (`shifts`: action index -> how much every hyper-parameter of the code differs in that action)."""
@@ -16,7 +16,12 @@ def py_lifecycle(expr, history, shifts=None):
     ops = base
 
     def shifted(d):
-        return [{k: ([v[0], v[1] + d, v[2]] if isinstance(v, list) else v) for k, v in spec.items()} for spec in base]
+        def bump(k, v):
+            if k == 'skip':
+                return [[n, h + d] for n, h in v]
+            return [v[0], v[1] + d, v[2]] if isinstance(v, list) else v
+
+        return [{k: bump(k, v) for k, v in spec.items()} for spec in base]
 
     sl = ['app', 'slice', 0, None, [['app', 'srcT', 0, None, []]]]
     xa0, xt0, y0 = ['app', 'srcA', 0, None, []], ['proj', 0, sl], ['proj', 1, sl]
@@ -28,6 +33,15 @@ def py_lifecycle(expr, history, shifts=None):
             return ['state', a[0], a[1], p, feats, labels] if a[2] else None
 
         for spec in ops:
+            if spec.get('skip'):
+                (zn, zh), (en, eh) = spec['skip']
+                xh = ['app', 'fan', 0, None, [xt]]
+                slot = lambda k: prev[len(states) + k] if len(states) + k < len(prev) else None
+                se = fit([en, eh, True], slot(0), xh, y)
+                sz = fit([zn, zh, True], slot(1), xh, y)
+                states += [se, sz]                     # the estimator is met first when walking the apply segment
+                xt = ['app', en, eh, se, [xh, ['app', zn, zh, sz, [xh]]]]
+                continue
             ynew = y
             if spec.get('label'):
                 lb = spec['label']
@@ -51,6 +65,14 @@ def py_lifecycle(expr, history, shifts=None):
     def apply(loaded, x):
         i = 0
         for spec in ops:
+            if spec.get('skip'):
+                (zn, zh), (en, eh) = spec['skip']
+                xh = ['app', 'fan', 0, None, [x]]
+                st_e = loaded[i] if i < len(loaded) else None
+                st_z = loaded[i + 1] if i + 1 < len(loaded) else None
+                i += 2
+                x = ['app', en, eh, st_e, [xh, ['app', zn, zh, st_z, [xh]]]]
+                continue
             if spec.get('apply'):
                 a = spec['apply']
                 st = None
@@ -67,7 +89,8 @@ def py_lifecycle(expr, history, shifts=None):
             registry.append(train(registry[-1] if registry else []))
             outs.append({'committed': registry[-1]})
         elif action[0] == 'apply':
-            outs.append({'out': [apply(registry[action[1]], xa0)]})
+            res = apply(registry[action[1]], xa0)
+            outs.append({'out': [['app', 'probe', 0, None, [res]] if sink else res]})
         else:
             outs.append({'out': [['app', 'metric', 0, None, [y0, apply(registry[action[1]], xt0)]]]})
     return json.loads(json.dumps(outs)), json.loads(json.dumps(registry))
@@ -101,6 +124,11 @@ class C04(core.Prop):
         seq = lambda *xs: xs[0] if len(xs) == 1 else ['seq', xs[0], seq(*xs[1:])]
         return [
             {'t': 'pinned', 'gens': 2, 'width': 3, 'implicit': True, 'commit_before': 1},
+            # a skip connection ending the pipeline: trained without anything composed after it, applied with a sink-like
+            # tail (Launcher.train_call vs Launcher.apply) - the positional binding must not depend on that
+            {'expr': ['seq', ['op', {'apply': ['m0', 0, False], 'train': 'same'}], ['op', {'skip': [['z1', 1], ['e2', 2]]}]],
+             'history': [['train'], ['apply', 0], ['train'], ['apply', 1]], 'sink_on_apply': True},
+            {'expr': ['seq', a, ['op', {'skip': [['z1', 1], ['e2', 2]]}]], 'history': [['train'], ['apply', 0]], 'sink_on_apply': True},
             {'expr': seq(lab, a, b, probe), 'history': [['train'], ['perftrack', 0], ['apply', 0]]},
             {'expr': seq(a, t, b, probe), 'history': [['train'], ['train'], ['perftrack', 1], ['apply', 0]]},
             {'expr': seq(['op', {'apply': ['m0', 0, False], 'train': 'same'}], a, b, probe), 'history': [['train'], ['perftrack', 0]]},
@@ -150,7 +178,7 @@ class C04(core.Prop):
             return list(pool.map(impl.observe, cases))
 
     def coq_case(self, case, obs):
-        if case.get('t') == 'pinned':
+        if case.get('t') == 'pinned' or case.get('sink_on_apply'):
             return None
         if case.get('shift'):
             return None        # code-change histories are judged by the oracle only (the model fixes the hyper-parameters)
@@ -181,10 +209,16 @@ class C04(core.Prop):
             return None
         if 'error' in obs:
             return f"lifecycle failed: {obs['error']}"
-        want, registry = py_lifecycle(case['expr'], case['history'], case.get('shift'))
+        want, registry = py_lifecycle(case['expr'], case['history'], case.get('shift'), bool(case.get('sink_on_apply')))
         for k, (action, got, exp) in enumerate(zip(case['history'], obs['steps'], want)):
             if action[0] == 'train':
-                if got['committed'] != exp['committed']:
+                same = got['committed'] == exp['committed']
+                if case.get('sink_on_apply'):
+                    # the order in which the states are stored is the implementation's business as long as every later action
+                    # finds each actor's own state: compare the committed states as a collection here
+                    canon = lambda l: sorted(json.dumps(x) for x in l)
+                    same = canon(got['committed']) == canon(exp['committed'])
+                if not same:
                     return f"action {k} train: committed states differ from the states the actors produced / continued from"
             elif got['out'] != exp['out']:
                 kind = 'perftrack' if action[0] == 'perftrack' else 'apply'
